@@ -15,9 +15,17 @@ scratch tree (names, sizes, content hashes, directories), call `save`, snapshot 
   (b) unser     ONE value of a registered type (every position in turn) is valid but its serialiser raises; ONE value
                 (every `Any`-typed position in turn; every leaf in turn when validation is switched off) is an object
                 that passes the per-argument serialisers but that the dumper (yaml / json) cannot represent;
-  (c) refusal   `overwrite=False` and a destination exists (arises from the pre-existing axis);
+  (c) refusal   `overwrite=False` and a destination exists (arises from the pre-existing axis: every subset of the
+                destinations); like (a) and (b) a failure that save() decides by itself before anything needs to be
+                written, so it is judged all-or-nothing too (clause 2b: a refusal at a later sub-file must not leave the
+                earlier ones behind);
   (d) oserror   the k-th `open` / `write` / `close` raises OSError, for every k seen in the fault-free run of the
                 same case (`builtins.open` is interposed by the harness for the duration of the save call only).
+
+Name collisions among the destinations: sub-files with the same base name in different input directories (`names`),
+and a target whose base name is that of one of the sub-file destinations (`tname`, every destination in turn): multi-file
+mode is asked for two different contents in one file and must either refuse with the tree unchanged or write something
+that parses back.
 
 History: after a fault-free save that returned, the SAME configuration object is saved once more with the same
 arguments into another, empty directory (`saves: 2`); the second call is judged like the first (its own snapshot
@@ -452,6 +460,7 @@ DEFAULTS = {
     "comps": [],
     "names": "own",  # own: every sub-file has its own base name | shared: same base name in different input directories
     "layout": "other",  # other: inputs in in/, target in out/ | inplace: save onto the loaded main file | sibling: same dir, new name
+    "tname": "own",  # base name of the target: own (main.<ext> / saved.<ext>) | sub<i> = that of the i-th sub-file destination
     "target": "abs",  # abs | rel (cwd = scratch root, 'out/main.yaml') | relcwd (cwd = target dir, 'main.yaml') | pathobj
     "load": "parse_path",  # how the configuration was obtained: parse_path(main) | argv (parse_args(['--cfg=main']))
     "multifile": True,
@@ -485,6 +494,10 @@ def destinations(case, comps):
     subs = []
     for c in comps:
         subs += [d for d in c.dests if d not in subs]
+    if case.get("tname", "own") != "own":
+        # name collision between the target and a sub-file: the main file is to be saved under the base name that the
+        # i-th sub-file takes next to it in multi-file mode (in the `sibling` layout that is the loaded sub-file itself)
+        main = subs[int(case["tname"][3:])]
     return main, subs
 
 
@@ -597,7 +610,7 @@ def execute(case, twin=None):
             # not carried along, see the interpretation above).  Judged like the first call, against the configuration
             # as it was before the first save.
             if case["multifile"] or not same_dir:
-                out2, main2 = os.path.join(root, "again"), "main." + case["ext"]
+                out2, main2 = os.path.join(root, "again"), main_name if case["tname"] != "own" else "main." + case["ext"]
                 os.makedirs(out2)
             else:
                 out2, main2 = in_dir, "again." + case["ext"]
@@ -673,6 +686,8 @@ def judge(case, comps, mode, root, out_dir, main_name, sub_names, real_dests, be
         features.append("nonplain-value-in-subfile-config")
     if case["multifile"] and case["names"] == "shared" and sum(1 for c in comps if c.dests) >= 2:
         features.append("shared-subfile-names")
+    if case["multifile"] and case["tname"] != "own":
+        features.append("target-named-like-subfile")
     if fkind in ("invalid", "unser"):
         # with skip_validation=True nothing is validated: a bad value can only make the serialisation fail
         as_invalid = fkind == "invalid" and not case["skip_validation"]
@@ -684,14 +699,18 @@ def judge(case, comps, mode, root, out_dir, main_name, sub_names, real_dests, be
         outcome = "failed"
         if fkind == "oserror":
             outcome = "io-error"
-        elif refusal_possible:
-            outcome = "refused-or-failed"
-        elif by_role["target"] or by_role["subfiles"]:
-            # root-cause attribution: the target counts as affected when it was opened for writing, even if
-            # truncating it changed nothing because it was empty before
-            target_opened = real_dests[main_name] in st["opened_w"]
-            top = "target" if by_role["target"] or target_opened else "subfiles"
-            devs.append((f"{mode}:{label}:changed:{top}", summary))
+        else:
+            if refusal_possible:
+                # clause 2b: the call had to be refused (a destination exists, overwrite=False) - alone or together with
+                # an invalid / unserialisable value; whichever of the two made it fail, nothing may have been written
+                outcome = "refused-or-failed"
+                label = "refused" if fkind == "none" else label + "+existing-destination"
+            if by_role["target"] or by_role["subfiles"]:
+                # root-cause attribution: the target counts as affected when it was opened for writing, even if
+                # truncating it changed nothing because it was empty before
+                target_opened = real_dests[main_name] in st["opened_w"]
+                top = "target" if by_role["target"] or target_opened else "subfiles"
+                devs.append((f"{mode}:{label}:changed:{top}", summary))
     elif fkind == "unser" and fault.get("how") == "opaque" and fault["tag"] != "any":
         # validation is off and the option's own serialiser turned the object into something writable (e.g. a path
         # option writes str(value)): the user asked for no checking, nothing is demanded of a save that returns
@@ -708,7 +727,11 @@ def judge(case, comps, mode, root, out_dir, main_name, sub_names, real_dests, be
     if exc is None and fkind == "none":
         target_abs = os.path.join(out_dir, main_name)
         shared = "shared-subfile-names" in features
-        loc = ("" if case["layout"] == "other" else ":same-dir") + (":shared-subfile-names" if shared else "")
+        tnamed = "target-named-like-subfile" in features
+        # with colliding names which content is lost depends on the write order / the kind only: one class per collision
+        loc = ("" if case["layout"] == "other" or tnamed else ":same-dir") + (":shared-subfile-names" if shared else "")
+        loc += ":target-named-like-subfile" if tnamed else ""
+        shared = shared or tnamed
         if not os.path.isfile(target_abs) or os.path.getsize(target_abs) == 0:
             devs.append((f"{mode}:success-without-target", summary))
             roundtrip = "no-target"
@@ -801,7 +824,7 @@ def run_base(base):
             keys.append(f"roundtrip:{o['roundtrip']}")
             keys.append(f"roundtrip-in-layout:{case['layout']}:{o['roundtrip']}")
         keys.append(f"layout:{case['layout']}")
-        for axis in ("names", "target", "load", "format", "ext", "pre_content", "exc", "skip_none", "skip_validation"):
+        for axis in ("names", "tname", "target", "load", "format", "ext", "pre_content", "exc", "skip_none", "skip_validation"):
             if case[axis] != DEFAULTS[axis]:
                 keys.append(f"axis:{axis}={case[axis]}")
         if o["outcome"] == "saved" and case["multifile"]:
@@ -816,6 +839,16 @@ def run_base(base):
             keys.append(f"failed-and-unchanged:{fault['kind']}")
         if o["outcome"] == "refused-or-failed":
             keys.append("refused:" + ("something-written-before" if any(o["changed"].values()) else "nothing-written"))
+            if fault["kind"] == "none" and case["multifile"]:
+                # the target is absent, one sub-file exists and another one does not: every subset of the destinations
+                # is enumerated, so whatever the write order, in some of these cases the refusal comes at a sub-file
+                # that is written after an absent one (which a refusal that is not decided up front leaves behind)
+                main_n, sub_n = destinations(case, comps)
+                eff = [n for n in case["pre"] if n in sub_n] if case["layout"] == "other" else []
+                if eff and main_n not in case["pre"] and len(eff) < len(sub_n):
+                    keys.append("refused-subfile-exists-another-absent")
+        if case["tname"] != "own":
+            keys.append(f"tname:{'multi' if case['multifile'] else 'single'}:{fault['kind']}:{o['outcome']}")
         if o["outcome"] == "saved" and case["multifile"] and any(c.from_file and c.kind in SUBCONFIG_KINDS for c in comps):
             keys.append("multi-saved-with-subconfig-file")
         if fault.get("how") == "opaque":
@@ -847,9 +880,11 @@ def run_base(base):
     first_obs["obs"] = first["obs"]
     out["sample"] = {"case": slim_case(dict(base, fault={"kind": "none"}, saves=1 if only_raising else 2)), "trace": first["obs"]["trace"], "outcome": first["obs"]["outcome"]}
     points = fault_points(comps, base["skip_validation"])
-    if first["obs"]["refusal_possible"]:
-        # the call is refused because a destination exists: classes (a)/(b) are judged by the no-overwrite clause only
-        # there, so one representative per class and place is enough (first main key, last sub-config key)
+    if first["obs"]["refusal_possible"] or first["obs"]["exc"]:
+        # the call is refused because a destination exists, or the fault-free save of this base fails by itself (two
+        # different contents for one destination): whatever class (a)/(b) adds, the call fails with or without it and
+        # must leave the tree unchanged (clauses 1, 2, 2b; the fault-free case itself is judged by them), so one
+        # representative per class and place is enough (first main key, last sub-config key)
         inv = [f for f in points if f["kind"] == "invalid" and f["how"] == "type"]
         uns = [f for f in points if f["kind"] == "unser"]
         points = [inv[0], inv[-1], uns[0], uns[-1]] if len(inv) > 1 else inv + uns[:1]
@@ -908,6 +943,14 @@ def shared_name_shapes(tier):
     return [list(p) for p in itertools.product(kinds, repeat=2)] + [["P", "P", "P"], ["F", "P", "C"]]
 
 
+def target_name_shapes(tier):
+    """Shapes on which the target takes the base name of a sub-file: every kind that writes one, alone and in pairs."""
+    out = [[k] for k in CORE + REST if k not in ("Pi", "Pti", "Fn")]
+    if tier == "quick":
+        return out + REPRESENTATIVE[4:]
+    return out + [list(p) for p in itertools.permutations(CORE, 2)] + [["F", "P", "C"], ["N", "F", "G"]]
+
+
 REPRESENTATIVE = [[], ["P"], ["F"], ["C"], ["F", "P"], ["F", "Pt"], ["P", "C"], ["D", "F"]]
 SECONDARY = [
     {"format": "json"},
@@ -955,6 +998,10 @@ def bases(tier):
             for multifile in (False, True):
                 for overwrite in (False, True):
                     for pre in ([], [main] + subs):
+                        if "pre_content" in var and not pre:
+                            # what the pre-existing files contain is immaterial when there are none: literally the
+                            # base without this axis (enumerated above / as the variant made of the other axis alone)
+                            continue
                         out.append({"comps": comps, "multifile": multifile, "overwrite": overwrite, "pre": pre, **var})
     # (C) saving next to / onto the files the configuration was loaded from
     if tier == "quick":
@@ -975,6 +1022,24 @@ def bases(tier):
             for overwrite in (False, True):
                 for pre in _subsets([main] + subs) if multifile else ([], [main]):
                     out.append({"comps": comps, "names": "shared", "multifile": multifile, "overwrite": overwrite, "pre": pre})
+    # (F) the target's base name equals the base name of one of the sub-file destinations (every one in turn):
+    # multi-file mode wants two different contents in one file.  Layout `other` x mode x overwrite x every subset of
+    # pre-existing destinations; layout `sibling` (the target IS the sub-file the configuration was loaded from) in
+    # multi-file mode only - in single-file mode the sub-file names are no destinations, and overwriting one of the
+    # configuration's own input files on request is the user's business
+    for comps in target_name_shapes(tier):
+        case = full_case({"comps": comps})
+        _, subs = destinations(case, components(case))
+        for i in range(len(subs)):
+            tn = f"sub{i}"
+            for multifile in (False, True):
+                if not multifile and tier == "quick" and len(comps) > 1:
+                    continue  # single-file mode (where the sub-file names are mere bystanders): singleton shapes only
+                for overwrite in (False, True):
+                    for pre in _subsets(subs) if multifile else ([], [subs[i]]):
+                        out.append({"comps": comps, "tname": tn, "multifile": multifile, "overwrite": overwrite, "pre": pre})
+            for overwrite in (False, True):
+                out.append({"comps": comps, "tname": tn, "layout": "sibling", "multifile": True, "overwrite": overwrite})
     seen, uniq = set(), []
     for b in out:
         key = json.dumps(b, sort_keys=True)
@@ -1036,6 +1101,7 @@ def explore(ctx):
             "saves_per_case": "2 for fault-free cases (same cfg object, second directory), 1 otherwise",
             "unrepresentable_object": "every Any-typed position; every leaf when skip_validation=True",
             "layouts": ["other", "inplace", "sibling"],
+            "target_base_name": "own | that of each sub-file destination in turn (on %d shapes)" % len(target_name_shapes(ctx.tier)),
             "secondary_axes": [sorted(v.items())[0] for v in SECONDARY],
             "secondary_axes_combined": "one at a time" if ctx.quick else "pairs",
         },
@@ -1056,6 +1122,9 @@ def explore(ctx):
     ctx.require(c("roundtrip-in-layout:inplace:") >= 10 and c("roundtrip-in-layout:sibling:") >= 10, "successful saves next to / onto the loaded files were re-parsed")
     ctx.require(all(c(f"axis:{k}={v}") >= 50 for var in SECONDARY for k, v in var.items()), ">= 50 cases on every secondary axis value")
     ctx.require(c("axis:names=shared") >= 200, ">= 200 cases with colliding sub-file base names")
+    ctx.require(c("tname:multi:none:") >= 50 and c("tname:single:none:") >= 20, ">= 50 multi-file / 20 single-file fault-free saves whose target has the base name of a sub-file")
+    ctx.require(c("tname:multi:") >= 500, ">= 500 multi-file cases whose target has the base name of a sub-file")
+    ctx.require(c("refused-subfile-exists-another-absent") >= 40, ">= 40 refusals where the target is absent, one sub-file exists and another one does not")
     # guards of the second-save / unrepresentable-object axes count ATTEMPTS (whatever the outcome), so that a tree on
     # which they go wrong is reported as a violation, not as a vacuous run
     ctx.require(c("second-save:roundtrip:") >= 100, ">= 100 second saves of the same cfg object")
